@@ -125,6 +125,32 @@ def translate():
     return errs, out.strip()
 
 
+GEN_FILES = ('GenParams.v', 'GenLayout.v', 'GenCliIdx.v', 'GenPyx.v', 'GenCli.v', 'GenGuards.v')
+REF = os.path.join(COQ, 'ref')
+
+
+def gen_changed():
+    """generated files whose current content differs from the committed reference copy (coq/ref/)"""
+    out = []
+    for g in GEN_FILES:
+        try:
+            if open(os.path.join(COQ, g)).read() != open(os.path.join(REF, g)).read():
+                out.append(g)
+        except OSError:
+            pass
+    return out
+
+
+def restore_ref(names):
+    for g in names:
+        try:
+            t = open(os.path.join(REF, g)).read()
+            if open(os.path.join(COQ, g)).read() != t:
+                open(os.path.join(COQ, g), 'w').write(t)
+        except OSError:
+            pass
+
+
 def coq_make(targets=None, timeout=1500):
     """full .vo build (never -vos) of the given targets (default: everything); -k so that an
     independent broken proof does not hide the others"""
